@@ -28,6 +28,11 @@ def emit(repo: str) -> str:
     if len(inner) != 1:
         raise Unrecognised("parse_enum._parse_enum")
     body = clean(inner[0].body)
+    # since fix e04e845 the converter first returns a value that already is a member (a str-mixin Enum default)
+    if body and unparse(body[0]) == "if isinstance(v, enum_type):\n    return v":
+        body = body[1:]
+    else:
+        raise Unrecognised("parse_enum._parse_enum: the member pass-through (fix e04e845) is missing")
     if [unparse(s) for s in body] == ["return enum_type[v]"]:
         miss = "KeyError"
     elif len(body) == 1 and isinstance(body[0], ast.Try):
